@@ -30,6 +30,10 @@ OP_PROPS = {
     "typ.remove": ["C14", "C13"],
     "typ.extract": ["C14", "C13"],
     "sch.equals": ["C17"],
+    "ser.pe": ["C16"],
+    "ser.depe": ["C16"],
+    "ser.emit": ["C16"],
+    "ser.read": ["C16"],
     "flt.apply": ["C19"],
     "flt.ensure": ["C02", "C03", "C15"],
     "rec.reconcile": ["C20"],
@@ -93,6 +97,14 @@ PROPS["C08"] = {
     "theorems": [],
     "assumptions": ["partial: the model has value semantics, so 'arguments unchanged' is decided observationally by deep snapshots (canonical encodings of live object, submitted object, managed fields incl. every trie, set operands) taken before and after every call of every domain; the theorems cover the conversion-failure clause for every converter and failure position"],
     "explanation": "partial by proof: aliasing of arbitrary Go data is a runtime matter that the value-semantic model cannot exhibit",
+}
+
+PROPS["C16"] = {
+    "domains": [{"name": "ser", "n_quick": 2500, "n_thorough": 60000},
+                {"name": "set", "n_quick": 500, "n_thorough": 5000}],
+    "lean_modules": ["SMD.Properties.C16"],
+    "theorems": [],
+    "assumptions": ["the JSON text layer (jsoniter lexer, escaping, number formatting) is external: the model's printer/reader covers standard JSON with numbers whose shortest decimal form is exact; other payloads are answered 'unsupported' by the model and judged on the implementation only"],
 }
 
 HOOK_COMMITS = []
